@@ -75,8 +75,35 @@ def c01_extra(run, tier):
                         run.problems.append(P("exception", "raised %s: %s" % (type(ex).__name__, str(ex)[:200])))
                         continue
                     run.problems += truncrun.check_result(P, tt, X, "tt", list(shape), [], [10 ** 9] * (d - 1), rho, eps, False, A, dt, "random")
+    # operator shapes (list of (M, N) tuples) of order 1..3, rectangular, from sources of three forms: the natural
+    # M1 x .. x Md x N1 x .. x Nd array, the same data as a flat vector, and as a numpy array
+    opshapes = [[(3, 4)], [(4, 2)], [(1, 3)], [(2, 2)], [(2, 3), (3, 2)], [(3, 1), (2, 4)], [(2, 2), (1, 3), (3, 2)]]
+    m = 0
+    for shp in opshapes:
+        M, N = [a for a, _ in shp], [b for _, b in shp]
+        d = len(shp)
+        for dt in (torch.float64, torch.complex128):
+            for eps in (1e-12, 1e-3):
+                A = torch.randn(M + N, generator=gen, dtype=torch.float64).to(dt)
+                for form in ("natural", "flat", "numpy"):
+                    src = A if form == "natural" else (A.reshape(-1).clone() if form == "flat" else A.numpy())
+                    m += 1
+
+                    def P(cls, msg, shp=shp, form=form, dt=dt, eps=eps):
+                        return {"prop": "C01", "cls": cls, "op": "TT(dense)", "key": {"op": "TT(dense)", "cls": cls, "source": "operator-" + form, "d": len(shp)},
+                                "msg": "TT(%s source, shape=%s, %s, eps=%g): %s" % (form, shp, dt, eps, msg),
+                                "replay": {"engine": "vf.numrun", "what": "c01", "note": "seeded random array; rerun the check with the same VERIF_SEED"}}
+                    try:
+                        X = tt.TT(src, [(int(a), int(b)) for a, b in shp], eps=eps)
+                    except Exception as ex:  # noqa
+                        run.problems.append(P("exception", "raised %s: %s" % (type(ex).__name__, str(ex)[:200])))
+                        continue
+                    run.problems += truncrun.check_result(P, tt, X, "ttm", N, M, [10 ** 9] * (d - 1), [10 ** 9] * (d - 1), eps, False, A, dt, "operator-" + form,
+                                                          exact_rank_check=False)
+    n += m
     run.evaluations += n
     run.stats["random_arrays"] = n
+    run.stats["operator_constructor_forms"] = m
 
 
 def c02_extra(run, tier):
